@@ -4,6 +4,8 @@ pub open spec fn common_ok<F: RichField + Extendable<D>, const D: usize>(cd: Com
     &&& params_ok(cd.fri_params)
     &&& cd.fri_params.config.proof_of_work_bits <= 64
     &&& cd.fri_params.degree_bits + cd.fri_params.config.rate_bits <= F::TWO_ADICITY
+    &&& cd.config.fri_config == cd.fri_params.config      // CircuitBuilder::build derives fri_params from config.fri_config
+    &&& cd.fri_params.config.num_query_rounds <= 0x1_0000_0000
     &&& cd.quotient_degree_factor > 0
     &&& cd.config.num_challenges <= 0x1_0000
     &&& cd.quotient_degree_factor <= 0x1_0000
@@ -49,10 +51,6 @@ pub uninterp spec fn spec_reduce_with_powers<F: Field>(terms: Seq<F>, alpha: F) 
 pub uninterp spec fn spec_fri_instance<F: RichField + Extendable<D>, const D: usize>(cd: CommonCircuitData<F, D>, zeta: F::Extension) -> FriInstanceInfo<F, D>;
 
 pub uninterp spec fn spec_to_fri_openings<F: RichField + Extendable<D>, const D: usize>(o: OpeningSet<F, D>) -> FriOpenings<F, D>;
-
-pub uninterp spec fn spec_get_challenges<F: RichField + Extendable<D>, C: GenericConfig<D, F = F>, const D: usize>(
-    pwpi: ProofWithPublicInputs<F, C, D>, pi_hash: HashOut<F>, digest: <C::Hasher as Hasher<F>>::Hash, cd: CommonCircuitData<F, D>,
-) -> ProofChallenges<F, D>;
 
 // what verify_with_challenges must have checked before returning Ok
 pub open spec fn plonk_verified<F: RichField + Extendable<D>, C: GenericConfig<D, F = F>, const D: usize>(
